@@ -97,8 +97,6 @@ func (p *parser) unsup(line int, f string, a ...any) {
 }
 
 // Parse parses and checks a GLSL compute shader.
-var debugPanics bool
-
 func Parse(src string) (prog *Program, err error) {
 	defer func() {
 		if r := recover(); r != nil {
@@ -110,9 +108,6 @@ func Parse(src string) (prog *Program, err error) {
 			if ea, ok := r.(execAbort); ok {
 				err = ea.err
 				return
-			}
-			if debugPanics {
-				panic(r)
 			}
 			err = &xrt.Unsupported{What: fmt.Sprintf("internal parser error: %v", r)}
 		}
